@@ -23,6 +23,9 @@ Inductive xact :=
   | XARetTimeoutErr.         (* return DetermineContextError(timeoutContext) *)
 
 Inductive lockmode := LLock | LRLock | LNone.
+(* what DetermineContextError converts: ctx.Err() (the reason in the sense of the context package: Canceled or
+   DeadlineExceeded), or context.Cause(ctx) (whatever the canceller supplied) *)
+Inductive errsrc := SrcErr | SrcCause.
 Inductive capk := CapConst (n : nat) | CapLen.       (* make(chan T) / make(chan T, n) / make(chan T, <number of arguments>) *)
 
 Record facts := mkFacts {
@@ -41,6 +44,7 @@ Record facts := mkFacts {
   f_x_err_branch : list xact;        (* case err = <-channel: inside `if err != nil { ... }` *)
   f_x_chan_tail : list xact;         (* ... and after it *)
   f_x_timeout_branch : list xact;    (* case <-timeoutContext.Done() *)
+  f_ctx_err_src : errsrc;            (* DetermineContextError: commonerrors.ConvertContextError(ctx.Err()) *)
   (* RunActionWithTimeoutAndContext *)
   f_ctx_defer_store_cancel : bool;   (* defer store.Cancel() on a private store *)
   (* Parallelise *)
@@ -55,7 +59,7 @@ Record facts := mkFacts {
 Definition set_stop_cap (n : nat) (f : facts) : facts :=
   mkFacts (f_rat_chan_cap f) n (f_rat_chan_branch f) (f_rat_timer_branch f) (f_rat_waits f)
           (f_x_initial_check f) (f_x_reg_t f) (f_x_reg_a f) (f_x_defer_tcancel f) (f_x_chan_cap f)
-          (f_x_err_branch f) (f_x_chan_tail f) (f_x_timeout_branch f) (f_ctx_defer_store_cancel f)
+          (f_x_err_branch f) (f_x_chan_tail f) (f_x_timeout_branch f) (f_ctx_err_src f) (f_ctx_defer_store_cancel f)
           (f_par_cap f) (f_reg_lock f) (f_reg_copies f) (f_cancel_lock f) (f_len_lock f).
 
 Definition par_cap (f : facts) (n : nat) : nat := match f_par_cap f with CapLen => n | CapConst k => k end.
